@@ -902,6 +902,31 @@ theorem arrival_foldl (ops : List Op) : ∀ (s : State) (h : Nat) (hd : Handling
       simp only [List.nil_append]
       rw [hm, hc]
 
+/-- create + await + arrival of a matching message + return of its handlers, from any state -/
+theorem nested_step (s : State) (kd : Kind) (m : Matcher) (c : Nat) (μ : Msg) (hm : m.matches μ = true) :
+    (∃ w, (step (step (step (step s (.create kd m)) (.awaitF s.ws.length)) (.arrive c μ)) (.finish s.hs.length)).ws[s.ws.length]?
+        = some w ∧ w.fut = .result s.hs.length) ∧
+    (∀ (h0 : Nat) (hd : Handling), s.hs[h0]? = some hd →
+      (step (step (step (step s (.create kd m)) (.awaitF s.ws.length)) (.arrive c μ)) (.finish s.hs.length)).hs[h0]? = some hd) := by
+  let w0 : Waiter := { m := m, kind := kd, started := true, awaiting := true }
+  have h2 : step (step s (.create kd m)) (.awaitF s.ws.length) = { s with ws := s.ws ++ [w0] } := by
+    simp [step, State.put, w0]
+  have h3 : step (step (step s (.create kd m)) (.awaitF s.ws.length)) (.arrive c μ) =
+      { s with ws := s.ws ++ [w0], hs := s.hs ++ [{ μ := μ, c := c }] } := by
+    rw [h2]; simp [step]
+  rw [h3]
+  have hhit : hit μ w0 = true := by simp [hit, w0, FStatus.done, hm]
+  constructor
+  · refine ⟨resolveW μ s.hs.length w0, ?_, by simp [resolveW, hhit]⟩
+    simp [step, deliver_eq]
+  · intro h0 hd h0d
+    have hlt : h0 < s.hs.length := (List.getElem?_eq_some_iff.mp h0d).1
+    have hne : s.hs.length ≠ h0 := by omega
+    simp only [step, List.getElem?_append_right (Nat.le_refl _), Nat.sub_self, List.getElem?_cons_zero,
+      Bool.false_eq_true, if_false]
+    rw [List.getElem?_set, if_neg hne, List.getElem?_append_left hlt]
+    exact h0d
+
 theorem wakeW_cbs_nil {q : List Cb} {k : Nat} {w : Waiter} (h : WInv q k w) : (wakeW k w).2 = [] := by
   unfold WInv at h
   unfold wakeW
